@@ -210,6 +210,37 @@ pub fn space(thorough: bool) -> Vec<Prog> {
             out.push(build(&env, None, es, &[], false, g, format!("none|entries={es:?}|groups={g}")));
         }
     }
+    // one stage reaches the variable only through a helper called at each placement context in each call form
+    // (void helpers included), while another stage uses it directly or nobody else does
+    for hs in Stage::ALL {
+        for direct in [None, Some(0usize), Some(1)] {
+            for ctx in Ctx::ALL {
+                for form in CallForm::ALL {
+                    let others: Vec<Stage> = Stage::ALL.iter().copied().filter(|x| *x != hs).collect();
+                    let direct_stage = direct.map(|d| others[d]);
+                    let mut src = String::from("var<push_constant> pc_res: vec4<f32>;\n");
+                    src.push_str(&helper("hh", form.is_value(), &indent("acc = pc_res.x;")));
+                    let cs = match ctx.wrap(&form.stmt("hh", 1)) {
+                        Some(c) => c,
+                        None => continue,
+                    };
+                    let mut stages = hs.bit();
+                    for st in Stage::ALL {
+                        let body = if st == hs {
+                            indent(&cs.full)
+                        } else if Some(st) == direct_stage {
+                            stages |= st.bit();
+                            indent("acc = pc_res.y;")
+                        } else {
+                            String::new()
+                        };
+                        src.push_str(&st.entry(entry_name(st), &body));
+                    }
+                    out.push(Prog { key: format!("placed|helper-stage={hs:?}|direct={direct_stage:?}|ctx={ctx:?}|form={form:?}"), src, expect: Some((16, stages)), groups: 0 });
+                }
+            }
+        }
+    }
     // several entry points per stage (used by all entries of the using stages / by none)
     use Stage::*;
     for es in [vec![V, F, F], vec![C, C], vec![V, V, F, C], vec![F, F, F], vec![C, V, C, F, C], vec![V, V], vec![F, C, F, C]] {
@@ -254,7 +285,7 @@ pub fn run(tier: &str) -> i32 {
         rep.merge(r);
     }
     rep.traces_validated = rep.evaluations;
-    rep.rule = "29 push-constant types (scalars, vectors, all 9 f32 matrices, arrays of vec3/vec4/scalar/struct, structs with internal and tail padding, nested, with mat3x3, with array) x every non-empty entry set over {V,F,C} x every subset of entries using the variable x direct use (inside switch) / use through a helper (inside if+loop) x number of bind groups; plus shaders without push constant and with a push constant reachable only from an uncalled helper; x Rust/Glam representation. Oracle: WGSL size reference (cross-checked against naga Layouter per state), stages by construction. Placement of the access in every control-flow context is covered by C03 (kind=PushConstant).".into();
+    rep.rule = "29 push-constant types (scalars, vectors, all 9 f32 matrices, arrays of vec3/vec4/scalar/struct, structs with internal and tail padding, nested, with mat3x3, with array) x every non-empty entry set over {V,F,C} x every subset of entries using the variable x direct use (inside switch) / use through a helper (inside if+loop) x number of bind groups; plus shaders without push constant and with a push constant reachable only from an uncalled helper; x Rust/Glam representation. Oracle: WGSL size reference (cross-checked against naga Layouter per state), stages by construction. A stage reaching the variable only through a helper: the call at each of the 13 placement contexts in each of the 9 call forms, with another stage using it directly or not.".into();
     if rep.outcomes.len() < 10 {
         machinery("C13: too few distinct outcomes");
     }
